@@ -101,19 +101,9 @@ def check_encode(built, f, timeout):
     if res.status == "proved":
         ob1.ok("z3-int (%d lemmas)" % len(res.info.get("lemmas", [])), res.seconds, res.queries)
     else:
-        bad = None
-        for it in range(300):
-            inp = smp(it)
-            ok, det = native_ok(inp)
-            if not ok:
-                bad = det
-                break
-        if bad:
-            bad["key"] = "%s.encode" % f.tag
-            bad["found_by"] = "boundary replay after failed certificate"
-            ob1.fail(bad, "z3-int+replay", res.seconds)
-        else:
-            ob1.unknown("no congruence certificate (%s)" % res.info.get("reason"), "z3-int", res.seconds)
+        _replay_or_unknown(ob1, smp, native_ok, "no congruence certificate (%s)" % res.info.get("reason"),
+                           f, "encode", enc, "(not (= (mod (- %s %s) %d) 0))" % (lhs.smt(), A.smt(), f.q),
+                           built, drv, extra=extra, timeout=timeout)
     decide(ob2, enc, "(<= 0 %s %d)" % (R.smt(), f.q - 1), built, drv, native_ok, extra=extra,
            timeout=timeout, hunt_sampler=smp, key="%s.encode" % f.tag)
     return [ob1, ob2]
@@ -193,7 +183,18 @@ def check_decode(built, f, n, timeout):
     return obs
 
 
-def _replay_or_unknown(ob, smp, native_ok, why, f, what):
+def _replay_or_unknown(ob, smp, native_ok, why, f, what, enc=None, neg=None, built=None, drv=None,
+                       extra=(), timeout=60):
+    # 1. ask the solver for a concrete input violating the goal (exact: no abstract products here)
+    if enc is not None and neg is not None and not enc.prod_ops:
+        model, secs, nq = PR.falsify(enc, neg, [{}], timeout=timeout, extra=list(extra))
+        if model is not None:
+            inp = model_inputs(model, built, drv)
+            ok, det = native_ok(inp)
+            if not ok:
+                det["key"] = "%s.%s" % (f.tag, what)
+                det["found_by"] = "z3-int model (exact query) after " + why
+                return ob.fail(det, "z3-int", secs)
     for it in range(300):
         inp = smp(it)
         ok, det = native_ok(inp)
@@ -234,7 +235,8 @@ def check_reduce(built, f, n, timeout):
     res = PR.prove_congruence(enc, R, rhs, q, timeout=timeout, samples=samples)
     if res.status != "proved":
         _replay_or_unknown(ob, smp, native_ok, "no congruence certificate (%s)" % res.info.get("reason"),
-                           f, "decode_reduce")
+                           f, "decode_reduce", enc, "(not (= (mod (- %s %s) %d) 0))" % (R.smt(), rhs.smt(), q),
+                           built, drv, timeout=timeout)
         return [ob]
     if f.kind == "raw":
         ob.ok("z3-int (%d lemmas)" % len(res.info.get("lemmas", [])), res.seconds, res.queries)
